@@ -367,6 +367,7 @@ static void runCase(uint64_t caseId, Rng rng, size_t nsteps, unsigned mode, unsi
 			} else {
 				if (readOnly || nfork == 0 || si >= nstart || (mode == 0 && inBefore)) { read(genSigs(2)); continue; } // only started scripts fork: no recursion
 				ins.kind = Ins::FORK; ins.script = nstart + rng.below(nfork);
+				read({}); // the parent's earlier writes are observed before the child (which starts immediately) can write
 				sc.push_back(ins);
 			}
 		}
@@ -430,7 +431,7 @@ int main(int argc, char **argv) {
 	unsigned mode = (unsigned) vh::argU64(argc, argv, 4, 0), reps = (unsigned) vh::argU64(argc, argv, 5, 2);
 	std::ios::sync_with_stdio(false);
 	std::cout << "# prop=C19 seed=" << seed << " ncases=" << ncases << " nsteps=" << nsteps << " mode=" << mode << " reps=" << reps << "\n";
-	Rng master(seed * 0x9E3779B97F4A7C15ull + 0xC19);
+	Rng master(Rng(seed * 0x100000001B3ull + 0xC19).next()); // hashed: consecutive seeds give unrelated streams
 	for (uint64_t c = 0; c < ncases; c++) {
 		Rng r = master.fork();
 		std::ostringstream buf;
